@@ -3,7 +3,9 @@ CONSTANTS
   N = 3
   MaxDeliver = 3
   MaxCrash = 1
+  Readers = 0
+  ReadFill = FALSE
   Forks = FALSE
   Gaps = FALSE
-INVARIANTS InvHeadLinked InvIndex InvHeadState InvMarks InvExecuted InvWeightMonotone InvCrashHeadStrict
+INVARIANTS InvCache InvHeadLinked InvIndex InvHeadState InvMarks InvExecuted InvWeightMonotone InvCrashHeadStrict
 CHECK_DEADLOCK FALSE
